@@ -427,5 +427,8 @@ RMatInv(A) ==
   IN  BR_Vec(n, Out)
 
 \* solve A X = B exactly (A square, non-singular; the columns of B are right-hand sides)
+\* identity (the Java override materialises lazily represented functions; no change of value)
+RForce(x) == x
+RMatInvRound(A, bits) == RMatRound(RMatInv(A), bits)
 RMatSolve(A, B) == RMatMul(RMatInv(A), B)
 =============================================================================
